@@ -75,6 +75,7 @@ type Result struct {
 	LogHash    string         `json:"log_hash"`
 	Stats      map[string]int `json:"stats"`
 	Shape      string         `json:"shape"`
+	ShapeSet   []string       `json:"shape_set,omitempty"` // several distinct cases reached by one run
 	Nontrivial bool           `json:"nontrivial"`
 	SimTimeS   float64        `json:"sim_time_s,omitempty"`
 	HarnessErr string         `json:"harness_err,omitempty"`
